@@ -608,7 +608,7 @@ var styles = []string{"sequential", "sequential", "faulty", "faulty", "jumping",
 	"decreasing", "duplicates", "uninit", "overflow", "mixed-steps"}
 
 func history(r *Rng, style string, out *Out) ([]event, []outc) {
-	step := r.PickI64(1, 1, 2, 2, 3, 3, 5, 2000, 0, -7)
+	step := r.PickI64(1, 1, 2, 2, 3, 3, 5, 2000, 1999, 2001, 0, -7, -(1 << 31), 1<<31-1)
 	nev := r.Range(10, 120)
 	if style == "overflow" {
 		step = r.PickI64(1, 2, 3, 2000, 1<<31-1)
@@ -627,8 +627,22 @@ func history(r *Rng, style string, out *Out) ([]event, []outc) {
 
 var mongoRuns int
 
+// focus: VERIF_FOCUS_KINDS (set by bin/check's extended search) names the kinds of cases on
+// which the correspondence broke; the run then spends its effort on those generators only.
+var focus = map[string]bool{}
+
+func want(kind string) bool { return len(focus) == 0 || focus[kind] }
+
 func gen(a Args, out *Out) {
 	r := NewRng(a.Seed)
+	for _, k := range strings.Split(os.Getenv("VERIF_FOCUS_KINDS"), ",") {
+		if k != "" && k != "corpus" && k != "replay" {
+			focus[k] = true
+		}
+	}
+	if len(focus) > 0 {
+		out.Note("focused on kinds %v", focus)
+	}
 	checkGuardText(out)
 	nhist := 400
 	if a.Thorough() {
@@ -658,6 +672,9 @@ func gen(a Args, out *Out) {
 	}
 	for k := 0; k < nhist; k++ {
 		style := styles[k%len(styles)]
+		if !want(style) {
+			continue
+		}
 		evs, outs := history(r, style, out)
 		var gs []gscript
 		if k%2 == 0 {
@@ -678,12 +695,27 @@ func gen(a Args, out *Out) {
 		record(style, evs, outs, gs)
 	}
 	t0 := time.Now()
-	genConcurrent(a, out, r.Fork())
+	if want("concurrent") || want("hot") {
+		rounds := 1
+		if len(focus) > 0 {
+			rounds = 4
+		}
+		for i := 0; i < rounds; i++ {
+			genConcurrent(a, out, r.Fork())
+		}
+	}
 	out.Note("concurrent + hot scenarios: %.1fs", time.Since(t0).Seconds())
 	t0 = time.Now()
-	genGated(a, out, r.Fork())
+	if want("gated") {
+		genGated(a, out, r.Fork())
+	}
 	out.Note("gated scenarios: %.1fs", time.Since(t0).Seconds())
-	genAPI(a, out, r.Fork())
+	if want("api") {
+		genAPI(a, out, r.Fork())
+	}
+	if len(focus) > 0 && !focus["default-step"] {
+		return
+	}
 	// the default step: a whole segment of 2000 ids and the roll-over, two generators
 	nlong := 3
 	if a.Thorough() {
